@@ -319,3 +319,18 @@ def checkpoint_races_commit(trace, viol):
 @predicate("stats_ignore_breakdown")
 def stats_ignore_breakdown(trace, viol):
     return (viol.get("class") or "").startswith("breakdown_does_not_sum") and bool((viol.get("detail") or {}).get("ignore_option"))
+
+
+@predicate("stats_breakdown_counts_pending_sessions")
+def stats_breakdown_counts_pending_sessions(trace, viol):
+    """a partial commit while another session's (human-overridden) work stays pending: the per-tool
+    breakdown counts that session although none of its lines is in the commit"""
+    if not (viol.get("class") or "").startswith("breakdown_does_not_sum") or (viol.get("detail") or {}).get("ignore_option"):
+        return False
+    st = viol.get("step")
+    ops = _ops(trace)
+    if not isinstance(st, int):
+        return False
+    partial = any((o.get("op") == "stage") or (_is_git(o, "add", "--")) or (_is_git(o, "commit", "--")) for o in ops[:st + 1])
+    sessions = {o.get("who") for o in ops[:st + 1] if o.get("op") == "edit" and o.get("who") != "human"}
+    return partial and len(sessions) >= 2
